@@ -335,9 +335,13 @@ theorem run_rest (S : Sys Cell Phase Op) (K : Cell → Val)
 
 variable {I : Type} [DecidableEq I]
 
-/-- table condition: no operation writes or kills a shared (global) cell -/
+/-- table condition for one operation: in no phase does it write or kill a shared (global) cell -/
+def OpNoGlobalWrite (S : Sys Cell Phase Op) (isG : Cell → Bool) (op : Op) : Prop :=
+  ∀ ph c, isG c = true → (S.spec ph op).writes.lookup c = none ∧ c ∉ (S.spec ph op).kills
+
+/-- … for every operation of the system -/
 def NoGlobalWrite (S : Sys Cell Phase Op) (isG : Cell → Bool) : Prop :=
-  ∀ ph op c, isG c = true → (S.spec ph op).writes.lookup c = none ∧ c ∉ (S.spec ph op).kills
+  ∀ op, OpNoGlobalWrite S isG op
 
 theorem view_stepI_self (S : Sys Cell Phase Op) (K : Cell → Val)
     (sem : Op → Inp → Cell → List (Option Val) → Val) (isG : Cell → Bool)
@@ -360,8 +364,7 @@ theorem view_stepI_self (S : Sys Cell Phase Op) (K : Cell → Val)
 
 theorem view_stepI_other (S : Sys Cell Phase Op) (K : Cell → Val)
     (sem : Op → Inp → Cell → List (Option Val) → Val) (isG : Cell → Bool)
-    (hng : NoGlobalWrite S isG)
-    (ms ms' : MState I Cell Phase Val) (i j : I) (hij : j ≠ i) (op : Op) (inp : Inp)
+    (ms ms' : MState I Cell Phase Val) (i j : I) (hij : j ≠ i) (op : Op) (hng : OpNoGlobalWrite S isG op) (inp : Inp)
     (h : stepI S K sem isG ms i op inp = .ok ms') :
     ms'.phase j = ms.phase j ∧ view isG ms' j = view isG ms j := by
   unfold stepI at h
@@ -388,36 +391,39 @@ theorem view_stepI_other (S : Sys Cell Phase Op) (K : Cell → Val)
         | none =>
           simp only [hf, Except.ok.injEq, Prod.mk.injEq] at hs
           obtain ⟨_, rfl⟩ := hs
-          have := hng (ms.phase i) op c hg
+          have := hng (ms.phase i) c hg
           rw [applySpec_untouched K _ _ _ c this.1 this.2]
           unfold view
           simp [hg]
     · simp [hg, hij]
 
-/-- **instances are disjoint**: in any interleaving that succeeds, what instance `i` goes through is
-exactly its own operations run alone from what it saw at the beginning -/
+/-- **instances are disjoint**: in any interleaving that succeeds and consists of operations that do not
+write shared cells, what instance `i` goes through is exactly its own operations run alone from what
+it saw at the beginning -/
 theorem runI_project (S : Sys Cell Phase Op) (K : Cell → Val)
-    (sem : Op → Inp → Cell → List (Option Val) → Val) (isG : Cell → Bool)
-    (hng : NoGlobalWrite S isG) (i : I) :
+    (sem : Op → Inp → Cell → List (Option Val) → Val) (isG : Cell → Bool) (i : I) :
     ∀ (l : List (I × Op × Inp)) (ms ms' : MState I Cell Phase Val),
+      (∀ x ∈ l, OpNoGlobalWrite S isG x.2.1) →
       runI S K sem isG ms l = .ok ms' →
       run S K sem (ms.phase i, view isG ms i) (opsOf i l) = .ok (ms'.phase i, view isG ms' i) := by
   intro l
   induction l with
   | nil =>
-    intro ms ms' h
+    intro ms ms' _ h
     simp only [runI, Except.ok.injEq] at h
     subst h
     rfl
   | cons x rest ih =>
-    intro ms ms' h
+    intro ms ms' hq h
     obtain ⟨j, op, inp⟩ := x
+    have hop : OpNoGlobalWrite S isG op := hq (j, op, inp) (List.mem_cons_self ..)
+    have hrest : ∀ x ∈ rest, OpNoGlobalWrite S isG x.2.1 := fun x hx => hq x (List.mem_cons_of_mem _ hx)
     unfold runI at h
     cases hs : stepI S K sem isG ms j op inp with
     | error e => rw [hs] at h; cases h
     | ok ms1 =>
       rw [hs] at h
-      have hrec := ih ms1 ms' h
+      have hrec := ih ms1 ms' hrest h
       unfold opsOf
       by_cases hji : j = i
       · subst hji
@@ -426,7 +432,7 @@ theorem runI_project (S : Sys Cell Phase Op) (K : Cell → Val)
         rw [view_stepI_self S K sem isG ms ms1 j op inp hs]
         exact hrec
       · simp only [hji, if_false]
-        have := view_stepI_other S K sem isG hng ms ms1 j i (fun h => hji h.symm) op inp hs
+        have := view_stepI_other S K sem isG ms ms1 j i (fun h => hji h.symm) op hop inp hs
         rw [this.1, this.2] at hrec
         exact hrec
 
